@@ -111,7 +111,7 @@ K(['C03', 'C05'], 'c03-ion-comp-row', CO, "    \"c\": {'H': 2, 'e': -1},  # Stea
   'c ion composition loses a hydrogen')
 K(['C03'], 'c03-labile-guard-comp', CC, "    if annotation.has_labile_mods() and ion_type == 'p':", "    if annotation.has_labile_mods():",
   'labile', 'composition counts labile mods for fragments')
-K(['C03'], 'c03-comp-mass-order', MC, "    annotation.condense_static_mods(inplace=True)\n\n", "", 'condense_static_mods',
+K(['C03'], 'c03-comp-mass-order', MC, "    annotation.condense_static_mods(inplace=True)\n\n    # sum delta mass mods", "    # sum delta mass mods", 'condense_static_mods',
   'static rules no longer condensed before the split')
 K(['C03', 'C12'], 'c03-use-isotope-not-forwarded', MC, "    peptide_composition = _sequence_comp(annotation, ion_type, isotope, use_isotope_on_mods)",
   "    peptide_composition = _sequence_comp(annotation, ion_type, isotope)", 'use_isotope_on_mods',
